@@ -229,6 +229,17 @@ def check(ctx, case):
         if not ok:
             ctx.violation(f"time_notes:{opt.name}", {"n_got": len(got), "n_want": len(want), "first_bad": bad,
                                                      "timing": timing, "text": text[:400]})
+    # two timing data that differ only in their offsets, -1 and -2, timed one right after the other
+    from decimal import Decimal as _D
+
+    ta, tb = G.build_timing_data(dict(timing, offset="-1")), G.build_timing_data(dict(timing, offset="-2"))
+    na = list(time_notes(nd, ta, UnhittableNotes.KEEP_NOTE))
+    nb = list(time_notes(nd, tb, UnhittableNotes.KEEP_NOTE))
+    ctx.mon("timing_data_reused")
+    for x, y in zip(na, nb):
+        if abs((float(y.time) - float(x.time)) - 1.0) > 1e-9:
+            ctx.violation("time_notes:offsets-minus-1-and-minus-2-give-the-same-times", {"note": repr(x.note), "offset -1": float(x.time), "offset -2": float(y.time), "timing": timing})
+            break
     # the same TimingData object after an in-place change of its offset
     ctx.mon("timing_data_reused")
     from decimal import Decimal
